@@ -46,7 +46,7 @@ def cells_job(j):
     w = st["world"]
     eng = w.engine({"coercer": counting_coercer})
     docs = []
-    for f in ["s", "sn", "i", "e", "le", "ls", "fl", "lfl", "idf", "bo", "lo", "lnn", "p", "u", "lu", "o", "on", "nl", "ll"]:
+    for f in ["s", "sn", "i", "e", "le", "ls", "fl", "lfl", "idf", "bo", "lln", "lo", "lnn", "p", "u", "lu", "o", "on", "nl", "ll"]:
         fd = w.types["Query"]["fields"][f]
         named = fd["type"][-1]
         nodes = [N("OP", 0, "", "query"), N("F", 1, f)]
@@ -68,6 +68,8 @@ def cells_job(j):
     # objects naming their runtime type in the three ways, incl. types that are possible for another abstract type only
     for tn in ["A", "B", "C", "T", "Nope", "P", "E"]:
         vals.append(("{_typename:%s}" % tn, {"_typename": tn, "_id": "x", "d": "dv"}))
+    vals += [("[[],None]", [[], None]), ("[None,[obj]]", [None, [{"_typename": "T", "_id": "x", "d": "dv"}]]), ("[5,[obj]]", [5, [{"_typename": "T", "_id": "x", "d": "dv"}]]),
+             ("[[None],[obj]]", [[None], [{"_typename": "T", "_id": "x", "d": "dv"}]])]
     vals += [("X", "X"), ("[X,Y]", ["X", "Y"]), ("[X,Z]", ["X", "Z"]), ("Y", "Y"), ("{}", {}), ("[[...]]", [[{}], [None]]), ("[None]", [None, None])]
     records, meta, tid = [], {}, 0
     for name, nodes, target in docs:
